@@ -13,6 +13,7 @@ mod d_cfg;
 mod d_dlint;
 mod d_embed;
 mod d_entry;
+mod d_fixb;
 mod d_limits;
 mod d_pipe;
 mod d_rx;
@@ -132,6 +133,7 @@ fn main() {
     "cfg" => d_cfg::run(&args),
     "scope" => d_scope::run(&args),
     "limits" => d_limits::run(&args),
+    "fixb" => d_fixb::run(&args),
     "dlint" => d_dlint::run_all(&args),
     x => {
       eprintln!("unknown sub {}", x);
